@@ -526,13 +526,15 @@ def _round3_tasks(tier):
     batch("single-leaf-1d", "1d", 3 + d, ub=100, alpha=0.6, cost=0.3)
     batch("single-leaf-2d", "2d", 3 + d, ub=100, alpha=0.01, container="df", cost=0.3)
     # set_reference twice in a row, right after a drift, as first call, after an update without reference
-    batch("set-ref", "1d", 4 + d, updates=(0, 2, 3), set_menu=(0, 2, 3), max_set=3, alpha=0.6)
+    batch("set-ref", "1d", 4 + d, updates=(0, 2), set_menu=(0, 2, 3), max_set=3, alpha=0.6)
     # --- streaming ----------------------------------------------------------------------------------------------
     two = [[0, 0], [5, 0], [0, 5]]
     stream("2d-w2-p0", 2, two, 10 + d, dim=2)
     stream("2d-w2-p.5", 2, two, 10 + d, dim=2, persistence=0.5, alpha=0.3, full_df=True)
     stream("2d-df-w2", 2, two, 9 + d, dim=2, container="df", persistence=0.5)
     stream("2d-alt-w2", 2, [[0, 0], [5, 1], [1.5, 5]], 8 + d, dim=2, container="alt", int_when_integral=True)
+    # window of three rows: the reference tree splits both features, a sample's leaf depends on its second feature
+    stream("2d-w3", 3, [[0, 0], [5, 1], [1, 5]], 10 + d, dim=2, persistence=0.3, cost=8)
     stream("1d-df-w2", 2, [0, 1, 5], 9 + d, container="df", persistence=0.5)
     for w in (3,):
         cfg = {"id": "r3s-2d-w%d-dev" % w, "w": w, "persistence": 0.3, "alpha": 0.6, "B": 10, "ub": 1, "dim": 2,
@@ -564,13 +566,16 @@ def _round3_tasks(tier):
         ("ss", [sA, sB], [0, 1], 12 + d),
         ("sb", [sA, bC], [0, 1, 0], 10 + d),
         ("ssb", [sA, sB, bC], [0, 1, 2, 1, 0, 2], 11 + d),
-        ("bb", [bC, bD], [0, 1], 8 + d),
+        ("bb", [bC, bD], [0, 1], 7 + d),
     ):
         cfg = {"id": "r3m-" + cid, "members": members, "schedule": schedule}
         msys = SYSTEMS["KdqTreeInterleaved"]
-        for f in msys.alphabet(cfg, msys.init(cfg), 0):
-            out.append({"system": "KdqTreeInterleaved", "cfg": cfg, "prefix": [f], "depth": depth - 1,
-                        "validate_every": 101, "label": "KdqTreeInterleaved|%s|%s" % (cfg["id"], f["ev"]), "cost": 6})
+        st0 = msys.init(cfg)
+        for f in msys.alphabet(cfg, st0, 0):
+            for g in msys.alphabet(cfg, st0, 1):  # the alphabets of these members do not depend on the state
+                out.append({"system": "KdqTreeInterleaved", "cfg": cfg, "prefix": [f, g], "depth": depth - 2,
+                            "validate_every": 101, "cost": 4,
+                            "label": "KdqTreeInterleaved|%s|%s,%s" % (cfg["id"], f["ev"], g["ev"])})
     return out
 
 
